@@ -20,6 +20,14 @@ import (
 //go:embed testdata/nan_corruption.json
 var nanProbeJSON []byte
 
+// lcg is a fixed pseudo-random sequence for deterministic probe datasets.
+type lcg uint64
+
+func (l *lcg) f(lo, hi float64) float64 {
+	*l = *l*6364136223846793005 + 1442695040888963407
+	return lo + (hi-lo)*float64(uint64(*l)>>11)/float64(1<<53)
+}
+
 type stopFailer struct{ msg string }
 
 func (f *stopFailer) Fatalf(format string, args ...any) {
@@ -162,7 +170,47 @@ func TestC02_KnownProbes(t *testing.T) {
 			}
 		}
 	}
+	// object-nonfinite-coordinates: 2 000 points, 400 Point objects with a null
+	// (NaN) coordinate, 2 000 more points (an R-tree of depth 3), one WITHIN
+	// BOUNDS query that lost 12 ordinary points on 5c66d70. Positions come from
+	// a fixed linear congruential sequence. If the server refuses the NaN
+	// objects the history is just 4 000 points and must pass as well.
+	{
+		var nf history
+		r := lcg(3)
+		n := 0
+		pts := func(k int) {
+			for i := 0; i < k; i++ {
+				n++
+				nf.Steps = append(nf.Steps, step{Op: "set", ID: fmt.Sprintf("p%04d", n), Obj: &objSpec{[]string{"POINT", fs(r.f(-85, 85)), fs(r.f(-179, 179))}}})
+			}
+		}
+		pts(2000)
+		for i := 0; i < 200; i++ {
+			nf.Steps = append(nf.Steps, step{Op: "set", ID: fmt.Sprintf("nan%03d", i), Obj: &objSpec{[]string{"OBJECT", `{"type":"Point","coordinates":[null,` + fs(r.f(-85, 85)) + `]}`}}})
+			nf.Steps = append(nf.Steps, step{Op: "set", ID: fmt.Sprintf("nbn%03d", i), Obj: &objSpec{[]string{"OBJECT", `{"type":"Point","coordinates":[` + fs(r.f(-170, 170)) + `,null]}`}}})
+		}
+		pts(2000)
+		nf.Steps = append(nf.Steps, step{Op: "query", Pred: "within", Area: &areaSpec{Args: []string{"BOUNDS", "-41.58648684818561", "-102.98001361004066", "-18.251810900810497", "-79.64533766266555"}}})
+		levels := []string{"collection", "server"}
+		if nonFiniteRefused || ev.KnownActive(findingNonFinite) {
+			levels = []string{"server"} // in-package the harness follows the server's admission rule
+		}
+		for _, level := range levels {
+			c.Case()
+			nf.Level = level
+			if msg := historyFails(nf, conn); msg != "" {
+				reproduced[findingNonFinite] = append(reproduced[findingNonFinite], "nan-points/"+level+": "+msg)
+				c.Label("reproduced:nonfinite")
+				if firstReplay[findingNonFinite] == nil {
+					h := nf
+					firstReplay[findingNonFinite] = &h
+				}
+			}
+		}
+	}
 	whats := map[string]string{
+		findingNonFinite:  "SET ... OBJECT accepts and indexes geometries with null (NaN) / 1e999 (Inf) coordinates; the NaN boxes corrupt the R-tree and WITHIN/INTERSECTS miss ordinary objects that SCAN/GET still return: ",
 		findingClipSimple: "WITHIN/INTERSECTS key GET key id CLIPBY <rect> does not clip a referenced plain point (clip.Clip has no case for *geojson.SimplePoint): a point outside the rectangle still matches itself, while TEST ... INTERSECTS CLIP / clip.Clip of a *geojson.Point give an empty area: ",
 		findingNested:     "a circle feature nested in a FeatureCollection is indexed / searched by the box of its 64-gon (searchRect only widens a top-level *geojson.Circle), so another circle that overlaps its disc outside that box satisfies TEST (circle-vs-circle compares centre distances) and is missed by the search: ",
 		findingCircle:     "a point inside a CIRCLE's haversine disc but outside the bounding box of its 64-gon is matched by TEST / the predicate and missed by WITHIN/INTERSECTS: ",
@@ -171,7 +219,7 @@ func TestC02_KnownProbes(t *testing.T) {
 		findingNaN:        "a circle object whose disc touches a pole has NaN vertices (math.Asin(1.0000000000000002) in geo.DestinationPoint); its NaN box corrupts the R-tree for other objects (deletes fail silently, deleted ids are returned, live objects are missed): ",
 		findingEmpty:      "an empty collection object is WITHIN any CIRCLE according to TEST / the predicate (vacuous truth in Circle.Contains) and is never returned by WITHIN (empty geometries are not indexed): ",
 	}
-	for _, fid := range append([]string{findingClipSimple}, allFindings...) {
+	for _, fid := range append([]string{findingClipSimple, findingNonFinite}, allFindings...) {
 		if len(reproduced[fid]) == 0 {
 			continue
 		}
